@@ -363,6 +363,45 @@ func c02Type3(c *h.Ctx, n int, flips int) {
 		for _, l := range []int{0, 1, 15, 16, 17, 31, 32, len(resp) - 1} {
 			c02Judge(c, "type3:truncated", fin(resp[:l]), valid, 1, true, det("len", l))
 		}
+		// a malicious ISSUER knows the response keys: responses that open correctly but carry another blind signature
+		{
+			secret, encapEnc := st.VerifResponseSecrets()
+			seal := func(bs []byte) []byte {
+				rn := rnd(c, 16)
+				keys := c.Model("t3_response_keys", secret, encapEnc, rn)
+				blk, _ := aes.NewCipher(keys[0])
+				gcm, _ := cipher.NewGCM(blk)
+				return cat(rn, gcm.Seal(nil, keys[1], bs, nil))
+			}
+			var honestBS []byte
+			if len(resp) >= 16 {
+				keys := c.Model("t3_response_keys", secret, encapEnc, resp[:16])
+				blk, _ := aes.NewCipher(keys[0])
+				gcm, _ := cipher.NewGCM(blk)
+				honestBS, _ = gcm.Open(nil, keys[1], resp[16:], nil)
+			}
+			if honestBS != nil {
+				c02Judge(c, "type3:sealed:honest-signature-resealed", fin(seal(honestBS)), valid, 1, false, det("case", "resealed"))
+				for _, bit := range []int{0, 7, 1000, 2047} {
+					c02Judge(c, "type3:sealed:blind-signature-bitflip", fin(seal(flipBit(honestBS, bit))), valid, 1, true, det("bit", bit))
+				}
+				nMinus := new(big.Int).Sub(env.key.N, big.NewInt(1)).FillBytes(make([]byte, 256))
+				for name, bs := range map[string][]byte{"empty": {}, "zero": make([]byte, 256), "one": cat(make([]byte, 255), []byte{1}), "n-1": nMinus, "modulus": env.key.N.FillBytes(make([]byte, 256)),
+					"ff": bytesFF(256), "short": honestBS[:255], "long": cat(honestBS, []byte{0}), "random": rnd(c, 256)} {
+					c02Judge(c, "type3:sealed:other-blind-signature", fin(seal(bs)), valid, 1, true, det("blind_signature", name))
+				}
+				// the blind signature the same issuer gave to ANOTHER request
+				if len(respOther) >= 16 {
+					s2, e2 := st2.VerifResponseSecrets()
+					k2 := c.Model("t3_response_keys", s2, e2, respOther[:16])
+					blk, _ := aes.NewCipher(k2[0])
+					gcm, _ := cipher.NewGCM(blk)
+					if bsO, err := gcm.Open(nil, k2[1], respOther[16:], nil); err == nil {
+						c02Judge(c, "type3:sealed:blind-signature-of-another-request", fin(seal(bsO)), valid, 1, true, det("case", "other request's blind signature"))
+					}
+				}
+			}
+		}
 		c02Judge(c, "type3:extended", fin(cat(resp, []byte{0})), valid, 1, true, det("case", "extended"))
 		c02Judge(c, "type3:honest-again", fin(append([]byte{}, resp...)), valid, 1, false, det("case", "honest again"))
 		if !bytes.Equal(reqBefore, st.Request().Marshal()) {
